@@ -48,6 +48,7 @@ class Features:
         self.name_clash = 0.3  # re-use short names across namespaces
         self.utf8_bytes = False  # bytes data are UTF-8 encodings (bytes->string promotion stays decodable)
         self.unique_shorts = False  # unqualified names unique within a schema
+        self.ns_pool = None  # override of NAMESPACES
         self.ambiguous_union_defaults = False  # known finding F-UNION-DEFAULT-BRANCH (C01): excluded by construction
         self.__dict__.update(kw)
 
@@ -96,8 +97,9 @@ class SchemaBuilder:
 
     def new_name(self, ns_hint):
         d = self.d
+        pool = self.f.ns_pool or NAMESPACES
         if self.f.namespaces:
-            ns = ns_hint if d.p(0.6) else d.choice(NAMESPACES)
+            ns = ns_hint if (d.p(0.6) and ns_hint in pool) else d.choice(pool)
         else:
             ns = ""
         short = d.choice(SHORTS)
@@ -1371,3 +1373,34 @@ def piecewise_split(d, root, table):
     if not _spellable(rem_ir, ""):
         return None
     return pieces, (rem_ir, rem_t), defined
+
+
+def render_plain(node):
+    """Deterministic rendering: every definition with explicit name + namespace attribute, references by full name."""
+    k = node["k"]
+    if k in M.PRIMS:
+        return k
+    if k == "ref":
+        return node["name"]
+    if k == "array":
+        return {"type": "array", "items": render_plain(node["items"])}
+    if k == "map":
+        return {"type": "map", "values": render_plain(node["values"])}
+    if k == "union":
+        return [render_plain(b) for b in node["branches"]]
+    ns, short = M.split_full(node["name"])
+    out = {"type": k, "name": short, "namespace": ns}
+    if k == "fixed":
+        out["size"] = node["size"]
+    elif k == "enum":
+        out["symbols"] = list(node["symbols"])
+        if "default" in node:
+            out["default"] = node["default"]
+    else:
+        out["fields"] = []
+        for f in node["fields"]:
+            fo = {"name": f["name"], "type": render_plain(f["type"])}
+            if "default" in f:
+                fo["default"] = f["default"]
+            out["fields"].append(fo)
+    return out
